@@ -2,6 +2,7 @@
 import random
 import threading
 
+from .. import lockset as lockset_mod
 from .. import vtime
 from ..oracles import V
 
@@ -61,6 +62,8 @@ def run_sim(spec):
             return r
 
     bucket = LoggingBucket(mx, time_utils=sim)
+    lockset = {'applied': False, 'violations': [], 'count': [0]}
+    plain = lockset_mod.is_plain_lock(getattr(bucket, '_lock', None))
     if spec.get('time_yield'):
         # the clock read becomes a preemption point; the bucket's lock is made baton-aware so that a preempted holder does
         # not wedge the simulator
@@ -68,6 +71,20 @@ def run_sim(spec):
         sim.yield_until = spec.get('yield_until', float('inf'))
         sim.yield_delays = spec.get('yield_delays', [0.0])
         bucket._lock = vtime.SimLock(sim)
+        held = (lambda: bucket._lock.owner == threading.current_thread().name)
+    else:
+        if plain:
+            bucket._lock = lockset_mod.OwnerLock()
+        held = (lambda: bucket._lock.held_by_me())
+    if plain:
+        # lockset monitor: the bucket's collaborators (the backlog scheduler, the rate tracker) are only ever touched under the
+        # bucket's lock, so every write to them must come from the thread holding it (a lost update of the backlog needs a
+        # preemption inside one statement, which no schedule this harness can force will produce)
+        for attr in ('_consumption_scheduler', '_rate_tracker'):
+            o = getattr(bucket, attr, None)
+            if o is not None and hasattr(o, '__dict__'):
+                lockset_mod.guard(o, held, lockset['violations'], attr, lockset['count'])
+                lockset['applied'] = True
     reads = []  # (t_end, amt, stream, n_sleeps, slept_total, t_start)
     raised = {}
     bodies = {}
@@ -132,7 +149,8 @@ def run_sim(spec):
 
     sim.sleep = sleep
     ok = sim.run(bodies)
-    return {'ok': ok, 'reads': reads, 'consumes': consumes, 'sleeps': [tuple(s) for s in sim.sleeps], 'raised': raised, 'abandoned': aband,
+    return {'ok': ok, 'lockset': {'applied': lockset['applied'], 'violations': lockset['violations'][:5], 'writes': lockset['count'][0]},
+            'reads': reads, 'consumes': consumes, 'sleeps': [tuple(s) for s in sim.sleeps], 'raised': raised, 'abandoned': aband,
             'token_of': token_of, 'end': sim.now}
 
 
@@ -150,6 +168,14 @@ def check(spec, r):
              'abandoned': len(r['abandoned']), 'max_excess_batches_x100': 0, 'raised': len(r['raised'])}
     mech0 = {'clock': 'coarse' if coarse else 'default', 'lateness': spec.get('lateness', 'none'), 'abandoned': bool(r['abandoned']),
              'family': spec.get('family')}
+    ls = r.get('lockset') or {}
+    stats['lockset_applied'] = 1 if ls.get('applied') else 0
+    stats['lockset_writes_checked'] = ls.get('writes', 0)
+    if ls.get('violations'):
+        what, name, th = ls['violations'][0]
+        viol.append(V(f'limiter state {what}.{name} was written by thread {th} without the bucket lock (the waiting-time backlog / rate estimate '
+                      f'are shared by all streams: an unlocked update can be lost and leave every later read waiting for bytes nobody is '
+                      f'waiting for)', sym='lockset', **mech0))
     # O1 / O2
     ts = [x[0] for x in reads]
     am = [x[1] for x in reads]
